@@ -7,7 +7,13 @@ PROPS = ["c15_roundtrip", "c15_sync_mirror", "c15_sync_completes", "c15_mirror_r
          "c15_outage_reads", "c15_outage_writes", "c15_dead_frozen", "c15_cleanup_invisible",
          "c15_cleanup_purges", "c15_reads_unexpired", "c15_old_outage_reported_refuted", "c15_old_mirror_refuted",
          "c15_old_atomic_refuted_cursor", "c15_old_atomic_refuted_eager", "c15_old_stale_writeback_refuted",
-         "c15_retry_reuses_cursors_refuted", "c15_restart_wipes_refuted"]
+         "c15_retry_reuses_cursors_refuted", "c15_restart_wipes_refuted",
+         "c15_journal_transparent", "c15_atomic_journal", "c15_no_journal_refuted", "c15_weak_journal_refuted"]
+
+# coq/obl/Obl_C15.v over work/C15/gen/ConstsC15.v (journal_mode / synchronous of the connections that the real
+# initDB opened, probed by the harness): the precondition of c15_atomic_journal holds for the daemon as configured
+OBLS = ["c15_cache_probed", "c15_cache_is_transactional", "c15_atomic_as_configured",
+        "c15_cache_journal_synced", "c15_atomic_as_configured_power"]
 
 CASES = [("c15_history_mismatches", "storage histories (statement-level faults of every kind, transient and standing; restarts of the daemon) on real SQLite = model run (results of every op, both stores after every synchronisation and every restart)", "CasesC15.idx"),
          ("c15_handler_mismatches", "driven handler requests in every outage mode = model handler classes (what reaches the primary, cache untouched, served or refused)", "CasesC15h.idx"),
@@ -23,7 +29,8 @@ VCLASS = {1: ("sync-reported-complete-not-mirror", "copyDBIntoSQLite returned ni
           6: ("restart-changed-store", "a restart of the daemon on the same data directory changed a store (c15_restart_keeps_stores)"),
           7: ("outage-read", "a read during an outage was not answered with the cache's content, flagged fromCache (c15_outage_reads)")}
 
-TRUSTED = ["SQLite (mattn/go-sqlite3) transaction semantics: statements inside a transaction become durable together at COMMIT, a rolled-back transaction leaves the previous content — exercised with a fault at every statement, not proved",
+TRUSTED = ["SQLite (mattn/go-sqlite3) transaction semantics ON A CONNECTION THAT KEEPS A ROLLBACK JOURNAL IN A FILE OR A WAL: statements inside a transaction become durable together at COMMIT, a rolled-back transaction (tx.Rollback, or the recovery after a killed process; with synchronous >= normal also after a power loss) leaves the previous content — the precondition is CHECKED on every run (PRAGMA journal_mode / synchronous probed on several connections of the handles initDB opened; obligations c15_cache_is_transactional / c15_cache_journal_synced; Model/StorageJournal.v says what happens without it), the conclusion is exercised with a fault at every statement and on a cache larger than the page cache, not proved",
+           "the harness replaces the handles initDB opened by handles of the wrapping driver on the same files; the per-connection settings of the real handles (journal_mode, synchronous, cache_size, cache_spill, temp_store, mmap_size, busy_timeout, query_only, secure_delete, ...) that differ from a plain connection are replayed on every connection of the wrapping driver (PRAGMA statements at Open); locking_mode is reported but not carried over, other DSN parameters (_txlock, mode, cache=shared) are not seen",
            "the wrapping database/sql driver (harness/kmd/faultdb.go) numbers Query/Exec/Prepare/Begin/Commit/rows.Next calls in program order and fails the k-th (or every one from the k-th on) with an error value of the chosen kind (generic, sqlite3.Error{SQLITE_BUSY}, sqlite3.Error{SQLITE_LOCKED}, driver.ErrBadConn, context.DeadlineExceeded); the model's statement list is compared with it through the fault index; Rollback and Close calls are never failed",
            "database/sql's own repetition of DB.Query / DB.Begin / Stmt.Exec on driver.ErrBadConn is part of the model (st_retried); it is what the real database/sql of the toolchain does in the runs, not proved about it",
            "outages of the primary are simulated: hang = remoteDBQueryTimeout 0 (as the project's own cache test), closed pool = closed *sql.DB, fail-fast at prepare / query / row fetch = the wrapping driver failing every read of the primary file at that stage (with and without the other statements failing too) under a 20 ms read deadline; PostgreSQL is not available offline",
@@ -42,6 +49,11 @@ def run(ctx):
     ok, result, log = ctx.go_harness("cmd/keymasterd", "TestVerif_C15", files, timeout=1500)
     compile_gen(ctx, ("Routes.v", "Tables.v", "Consts.v"))
     if result is not None:
+        if compile_gen(ctx, ("ConstsC15.v",)) and os.path.exists(os.path.join(ctx.work, "gen", "ConstsC15.v")):
+            ctx.gen_obligations("Obl_C15.v", OBLS)
+        else:
+            ctx.obligations.append(("gen:c15_cache_is_transactional", False, "the harness wrote no probed connection settings"))
+            ctx.broken.append(("obligation", "gen:ConstsC15.v", "work/C15/gen/ConstsC15.v missing or rejected"))
         res = ctx.eval_cases(os.path.join(ctx.work, "CasesC15.v"), "CasesC15.v")
         if res is not None:
             n = res.get("c15_ncases", "?")
